@@ -641,6 +641,9 @@ pub fn cell_eq(want: &V, got: &V, float_tol: f64) -> bool {
         return true;
     }
     match (want, got) {
+        // T-SENTINEL: the engine's in-band NULL markers may surface instead of NULL
+        (V::Null, V::Int(i)) if *i == crate::model::I64_NULL => true,
+        (V::Null, V::Float(f)) if f.to_bits() == crate::model::F64_NULL_BITS || f.is_nan() => true,
         (V::Float(a), V::Float(b)) => {
             if a.is_nan() && b.is_nan() {
                 return true;
